@@ -1,6 +1,7 @@
 # C18 — replica repair with a hash database: correspondence of DbRepair.v with the database branch of
 # replication_repair.synchronize_files (run through replication_repair.main on real trees) and the property
 # predicate, written from the statement, evaluated on what the implementation did.
+import common
 import csv, hashlib, io, os, shutil, sys, tempfile
 from common import hx, hxl, unhx
 
@@ -138,7 +139,7 @@ def run_impl(case, want_traffic=False):
         os.makedirs(cw)
         os.chdir(cw)
         out = os.path.join(d, 'out')
-        argv = ['-i'] + reps + ['-o', out, '-f', '--silent']
+        argv = ['-i'] + reps + ['-o', out, '-f', '--silent'] + (['-v'] if common.every_fourth(case) else [])
         if db:
             argv += ['-d', db]
         if case.get('report'):
